@@ -244,7 +244,14 @@ func c10Oddities(t *rapid.T, doc gen.J) gen.J {
 				}
 				out = append(out, gen.JField{K: f.K, V: nv})
 			}
-			switch rapid.IntRange(0, 5).Draw(t, "objodd") {
+			switch rapid.IntRange(0, 6).Draw(t, "objodd") {
+			case 6:
+				// one member dropped and another one written twice
+				if len(out) >= 2 {
+					d := rapid.IntRange(0, len(out)-1).Draw(t, "dropm")
+					out = append(out[:d:d], out[d+1:]...)
+					out = append(out, out[rapid.IntRange(0, len(out)-1).Draw(t, "dupm")])
+				}
 			case 0:
 				out = append(out, gen.JField{K: "", V: gen.JArr{}})
 			case 1:
@@ -291,6 +298,17 @@ func TestC10Texts(t *testing.T) {
 		}
 		col.Case(acc > 0 && nmut > 0, text, func() any { return map[string]any{"mutated_text_accepted_by": acc, "text": text} })
 	})
+}
+
+// aliasProbes: one value of every exported message type, different from anything generated.
+func aliasProbes() []any {
+	e := &mocrelay.Event{Pubkey: gen.Keys[3].Pub, Kind: 1, CreatedAt: 77, Tags: []mocrelay.Tag{{"alias", "probe"}}, Content: strings.Repeat("alias probe ", 8)}
+	gen.Seal(e)
+	f := &mocrelay.ReqFilter{IDs: []string{e.ID}, Kinds: []int64{77}}
+	return []any{e, f, &mocrelay.ClientEventMsg{Event: e}, &mocrelay.ClientAuthMsg{Event: e}, &mocrelay.ClientReqMsg{SubscriptionID: "alias-probe", ReqFilters: []*mocrelay.ReqFilter{f}},
+		&mocrelay.ClientCountMsg{SubscriptionID: "alias-probe", ReqFilters: []*mocrelay.ReqFilter{f}}, &mocrelay.ClientCloseMsg{SubscriptionID: "alias-probe"},
+		mocrelay.NewServerEOSEMsg("alias-probe"), mocrelay.NewServerEventMsg("alias-probe", e), mocrelay.NewServerNoticeMsg("alias probe"), mocrelay.NewServerOKMsg(e.ID, false, "", "alias probe"),
+		&mocrelay.ServerAuthMsg{Challenge: "alias probe"}, mocrelay.NewServerCountMsg("alias-probe", 77, nil), mocrelay.NewServerClosedMsg("alias-probe", "", "alias probe")}
 }
 
 func TestC10RoundTripValues(t *testing.T) {
@@ -352,6 +370,22 @@ func TestC10RoundTripValues(t *testing.T) {
 			if err != nil || hx.JSON(gen.Norm(g)) != want {
 				hx.Fail(t, ev.Failure{Property: "C10", Signature: "roundtrip-parseclientmsg", Clause: "ParseClientMsg(encode(v)) == v (" + typ + ")",
 					Case: map[string]any{"value": gen.Norm(v), "encoded": string(enc)}, Observed: fmt.Sprintf("%s err=%v", hx.JSON(gen.Norm(g)), err), Expected: want})
+			}
+		}
+		// MarshalJSON called directly: the returned bytes belong to the caller and must not
+		// change when further values are encoded
+		if m1, ok := v.(json.Marshaler); ok {
+			b1, err1 := m1.MarshalJSON()
+			keep := append([]byte(nil), b1...)
+			for _, o := range aliasProbes() {
+				if m2, ok := o.(json.Marshaler); ok {
+					m2.MarshalJSON()
+				}
+				json.Marshal(o)
+			}
+			if err1 == nil && string(b1) != string(keep) {
+				hx.Fail(t, ev.Failure{Property: "C10", Signature: "encode-aliasing", Clause: "an encoded text stays what it was when further values are encoded (" + typ + ")",
+					Case: map[string]any{"value": gen.Norm(v)}, Observed: string(b1), Expected: string(keep)})
 			}
 		}
 		// the encoding must be plain JSON an independent decoder understands
